@@ -5,7 +5,7 @@ import statelib
 import fbgen
 from framework import Unit
 
-PROPS_FILES = ['C04', 'C04tb']
+PROPS_FILES = ['C04', 'C04tb', 'C04bxj']
 IMPORTS = 'From Gen Require Import enums opsyn core exec conc.'
 SPEC_IMPORTS = 'From ArmV Require Import Spec.Pseudocode Spec.Arch Spec.MachineView Spec.Branches.'
 PCS = [0, 4, 8, 0x100, 0x7FFFFFFC, 0x80000000, 0xFFFFFFF0, 0xFFFFFFF4, 0xFFFFFFF8, 0xFFFFFFFC]
@@ -173,6 +173,34 @@ def table_branch_cases(rng, tier):
     return out
 
 
+def bxj_cases(rng, tier):
+    """BXJ with JMCR.JE = 0: interworking branch to R[m]"""
+    import copy
+    t = statelib.load_index(C.GEN)['tables']
+    icpsr = t['sys_names'].index('cpsr')
+    out = []
+    for _ in range(40 if tier == 'quick' else 2000):
+        cfgd = copy.deepcopy(statelib.DEFAULT_CFG)
+        st = statelib.reset_state(t, cfg=cfgd, mem=[])
+        thumb = rng.getrandbits(1)
+        st['sys'][icpsr] = (rng.getrandbits(4) << 28) | (thumb << 5) | rng.choice([16, 19, 31])
+        st['sys'][t['sys_names'].index('jmcr')] = rng.getrandbits(31) << 1
+        st['R'] = [rng.getrandbits(32) for _ in range(34)]
+        st['R'][t['rnames'].index('PC')] = rng.choice([0x1000, 0x2002, 0xFFFFFFFC]) & (~1 if thumb else ~3)
+        st['opcode'], st['opcode_len'] = 0xE12FFF20, 32
+        mm = rng.randrange(15)
+        for i, nm in enumerate(t['rnames']):
+            if nm.startswith(f'R{mm}') or (mm == 13 and nm.startswith('SP')) or (mm == 14 and nm.startswith('LR')):
+                st['R'][i] = rng.choice([0x2000, 0x2001, 0x2002, 0x2003, 0xFFFFFFFF, 0]) if rng.random() < 0.7 else st['R'][i]
+        m = statelib.coq_machine(st)
+        cfg = statelib.coq_config(cfgd, t)
+        out.append({'impl': {'kind': 'exec', 'state': st, 'module': 'bxj', 'cls': 'Bxj', 'fields': [0, mm]},
+                    'model': f'(enc_out enc_machine enc_unit (Bxj_execute {cfg} 0 {mm} {m}))',
+                    'spec': f'(enc_out enc_machine enc_unit (Ok tt (apply_pc {m} (BXWritePC (cpsr_of {m}) (rget {m} {mm})))))',
+                    'label': 'bxj', 'nontrivial': True})
+    return out
+
+
 def units():
     ex = ['C04_B', 'C04_BL_BLX_imm', 'C04_BLX_reg', 'C04_BX', 'C04_CBZ', 'C04_BranchWritePC', 'C04_BXWritePC', 'C04_LoadWritePC',
           'C04_ALUWritePC', 'C04_aligned', 'C04_link_arm', 'C04_link_thumb']
@@ -186,6 +214,8 @@ def units():
             Unit('branch_offsets', off, ['Proofs/BranchProofs.v'], [], offset_cases, IMPORTS,
                  SPEC_IMPORTS),
             Unit('pc_advance', adv, ['Proofs/BranchProofs.v'], ['arm_v6.ArmV6.increment_pc_if_needed'], advance_cases, IMPORTS, SPEC_IMPORTS),
+            Unit('bxj', ['C04_Bxj'], ['Proofs/MiscProofs2.v'], ['opcodes.abstract_opcodes.bxj.Bxj.execute'], bxj_cases,
+                 IMPORTS, 'From ArmV Require Import Lib.PyZ Lib.Monad Spec.Pseudocode Spec.Arch Spec.MachineView.'),
             Unit('table_branch', ['C04_TBB_TBH'], ['Proofs/TableBranchProofs.v'], ['opcodes.abstract_opcodes.tbb_tbh.TbbTbh.execute'],
                  table_branch_cases, IMPORTS,
                  SPEC_IMPORTS + '\nFrom ArmV Require Import Spec.Hub Spec.Memory Spec.BlockTransfer Spec.TableBranch.')]
